@@ -18,6 +18,7 @@ pub mod c14;
 pub mod c15;
 pub mod c16;
 pub mod c17;
+pub mod c18;
 
 pub struct Entry {
     pub id: &'static str,
@@ -44,6 +45,7 @@ pub fn lookup(id: &str) -> Option<Entry> {
         "C15" => Entry { id: "C15", check: c15::check, replay: c15::replay },
         "C16" => Entry { id: "C16", check: c16::check, replay: c16::replay },
         "C17" => Entry { id: "C17", check: c17::check, replay: c17::replay },
+        "C18" => Entry { id: "C18", check: c18::check, replay: c18::replay },
         _ => return None,
     })
 }
